@@ -435,13 +435,7 @@ async fn config_wiring(report: &mut Report) {
     }
 }
 
-pub async fn run_prop(cli: &Cli) -> i32 {
-    let mut report = Report::new(
-        cli,
-        "exploration",
-        "sequences of real TCP connections to a Listener with rate limiter (limit 1/2/5, window 1 h) and PROXY protocol {off, v1+v2, v2 only, v1 only}: connections arrive through three loopback peers (127.0.0.1/2/3) announcing four IPv4/IPv6 sources with varying ports via v1 / v2 / v2-LOCAL / split headers, or with a missing, malformed or disabled-version header; status and login flows; judged against per-effective-IP counters kept by the harness (sequential arrivals: exact prediction), the recorded client address of every adapter call and the address inside issued cookies; plus a concurrent burst from a fresh source (exactly `limit` served); distinct = (sequence configuration, connection index)",
-    );
-    report.assume("the limiter window (1 h) never rolls during a run, so the admission model is: the first `limit` connections per effective IP are admitted");
+pub async fn run(cli: &Cli, report: &mut Report) {
     let seqs = generate(cli);
     let futs: Vec<_> = seqs.iter().map(run_seq).collect();
     // sequences are independent listeners; run a few at a time
@@ -470,7 +464,17 @@ pub async fn run_prop(cli: &Cli) -> i32 {
             report.violation(&f.signature, &f.what, json!({"sequence": seq.name, "configuration": {"proxy": format!("{:?}", seq.proxy), "limit": seq.limit}, "detail": f.detail, "trace": o.trace}));
         }
     }
-    config_wiring(&mut report).await;
+    config_wiring(report).await;
+}
+
+pub async fn run_prop(cli: &Cli) -> i32 {
+    let mut report = Report::new(
+        cli,
+        "exploration",
+        "sequences of real TCP connections to a Listener with rate limiter (limit 1/2/5, window 1 h) and PROXY protocol {off, v1+v2, v2 only, v1 only}: connections arrive through three loopback peers (127.0.0.1/2/3) announcing four IPv4/IPv6 sources with varying ports via v1 / v2 / v2-LOCAL / split headers, or with a missing, malformed or disabled-version header; status and login flows; judged against per-effective-IP counters kept by the harness (sequential arrivals: exact prediction), the recorded client address of every adapter call and the address inside issued cookies; plus a concurrent burst from a fresh source (exactly `limit` served); distinct = (sequence configuration, connection index)",
+    );
+    report.assume("the limiter window (1 h) never rolls during a run, so the admission model is: the first `limit` connections per effective IP are admitted");
+    run(cli, &mut report).await;
     if cli.prop == "C13" {
         // only: is every connection charged to its own effective address, independent of other keys
         report.retain_violations(|sig| sig.starts_with("refused-although-admissible") || sig.starts_with("served-although-over-limit") || sig.starts_with("burst-admission-count"));
